@@ -6,6 +6,7 @@ Answers: `ok …` / `fail <kind>` / `bad-op`.
 import CocoVerif.Model.Img
 import CocoVerif.Model.Compile
 import CocoVerif.Model.ProcBank
+import CocoVerif.Props.C14
 
 open CocoVerif.Model
 
@@ -126,7 +127,9 @@ def handleProcBank (args : List String) : String :=
   | ["bundle", st, name, text] => match st.toInt?, unhexStr name, unhexStr text with
       | some n, some nm, some t =>
           (match ProcBank.addFromStr {} t with
-           | some b => "ok " ++ hexStr (ProcBank.bundle b nm n)
+           | some b => (match ProcBank.bundle b nm n with
+               | some t => "ok " ++ hexStr t
+               | none => "internal fuel")
            | none => "internal UnboundLocalError")
       | _, _, _ => "bad-op"
   | _ => "bad-op"
@@ -136,6 +139,9 @@ def handle (lib : String) (line : String) : String :=
   | "img" :: args => handleImg args
   | "convast" :: args => handleConvAst lib args
   | "procbank" :: args => handleProcBank args
+  | ["c14table"] =>
+      "ok " ++ ";".intercalate (CocoVerif.Props.C14.emittedCalls.map (fun c =>
+        c.2.1 ++ "|" ++ ",".intercalate c.2.2.1 ++ "|" ++ (if c.2.2.2 then "1" else "0")))
   | ["ping"] => "ok pong"
   | _ => "bad-op"
 
